@@ -1,3 +1,3 @@
 SPECIFICATION Spec
 CONSTANT Tier = "quick"
-INVARIANTS MedsOK MtpMonotone Stable Shape Boundary
+INVARIANTS MedsOK MtpMonotone Stable Shape Boundary ForkLaws
